@@ -167,6 +167,7 @@ impl SubSocket {
         let mut iter = self.backend.peers.begin_async().await;
         // A failure on one peer's connection must not keep the other peers from being told.
         let mut first_error = None;
+        let mut dead_peers = Vec::new();
 
         while let Some(mut peer) = iter {
             #[cfg(feature = "verif-hooks")]
@@ -177,8 +178,12 @@ impl SubSocket {
                 .await
             {
                 first_error.get_or_insert(e);
+                dead_peers.push(peer.key().clone());
             }
             iter = peer.next_async().await;
+        }
+        for peer_id in dead_peers {
+            self.backend.peer_disconnected(&peer_id);
         }
         match first_error {
             Some(e) => Err(e.into()),
